@@ -237,6 +237,14 @@ func (e *SpecEnv) lookupIdent(name string) (Val, bool) {
 				if k, ok := o.(*types.Const); ok {
 					return c.constToVal(k.Val(), k.Type()), true
 				}
+				// package-level variable: its current value
+				if _, ok := o.(*types.Var); ok {
+					if sp := c.prog.SSA.Package(e.pkg); sp != nil {
+						if g, ok := sp.Members[name].(*ssa.Global); ok && e.st != nil {
+							return e.fr.load(e.st, e.fr.globalPtr(g), 0), true
+						}
+					}
+				}
 			}
 		}
 		// SSA register names as an escape hatch
